@@ -4,7 +4,6 @@ import (
 	"fmt"
 	"math/big"
 	"sort"
-	"strconv"
 	"strings"
 
 	"github.com/gcash/bchd/chaincfg/chainhash"
@@ -40,9 +39,16 @@ type c19 struct {
 	known map[string]bool
 	hit   func(kit.Violation)
 
-	pool  []coinset.Coin
-	set   *coinset.CoinSet
-	deque []coinset.Coin
+	pool []coinset.Coin
+	// two sets built from overlapping sub-slices of ONE caller-owned list:
+	// a set that adopted its caller's slice would show up as the other set's
+	// contents changing without any push, pop or shift on it
+	shared []coinset.Coin
+	sets   [2]*coinset.CoinSet
+	deques [2][]coinset.Coin
+	set    *coinset.CoinSet // the set the current operation addresses
+	deque  []coinset.Coin
+	cur    int
 
 	maxSteps, steps   int
 	mutated, selected bool
@@ -96,21 +102,52 @@ func (s *c19) Gen(r *kit.Rng) (kit.Op, bool) {
 		return kit.Op{}, false
 	}
 	s.steps++
-	if s.set == nil {
+	if s.sets[0] == nil {
 		// a few coins first, then the set
 		if len(s.pool) < 2 || (len(s.pool) < 12 && r.Chance(2, 3)) {
 			return s.genCoin(r), true
 		}
-		var idx []string
-		if r.Chance(3, 4) {
-			for i := range s.pool {
-				if r.Chance(1, 2) {
-					idx = append(idx, strconv.Itoa(i))
-				}
-			}
-		}
-		return kit.Op{K: "newset", S: strings.Join(idx, ",")}, true
+		return s.genNewSet(r, 0), true
 	}
+	if s.sets[1] == nil && r.Chance(1, 6) {
+		return s.genNewSet(r, 1), true
+	}
+	si := 0
+	if s.sets[1] != nil && r.Chance(1, 2) {
+		si = 1
+	}
+	s.use(si)
+	op, ok := s.genSetOp(r)
+	if op.K != "coin" {
+		if op.K == "push" {
+			op.N = []int64{int64(si)}
+		} else {
+			op.H = si
+		}
+	}
+	return op, ok
+}
+
+func (s *c19) use(i int) {
+	s.cur = i
+	s.set, s.deque = s.sets[i], s.deques[i]
+}
+
+func (s *c19) store() {
+	s.deques[s.cur] = s.deque
+}
+
+func (s *c19) genNewSet(r *kit.Rng, which int) kit.Op {
+	n := len(s.pool)
+	if which == 0 && r.Chance(1, 5) {
+		return kit.Op{K: "newset", H: which, S: "nil"}
+	}
+	a := r.Intn(n + 1)
+	b := a + r.Intn(n-a+1)
+	return kit.Op{K: "newset", H: which, S: fmt.Sprintf("%d:%d", a, b)}
+}
+
+func (s *c19) genSetOp(r *kit.Rng) (kit.Op, bool) {
 	switch r.Intn(16) {
 	case 0, 1:
 		if len(s.pool) < 16 {
@@ -121,13 +158,7 @@ func (s *c19) Gen(r *kit.Rng) (kit.Op, bool) {
 		// a coin not currently in the set
 		var free []int
 		for i, c := range s.pool {
-			in := false
-			for _, d := range s.deque {
-				if d == c {
-					in = true
-				}
-			}
-			if !in {
+			if !s.inAnySet(c) {
 				free = append(free, i)
 			}
 		}
@@ -144,6 +175,17 @@ func (s *c19) Gen(r *kit.Rng) (kit.Op, bool) {
 	default:
 		return s.genSelect(r), true
 	}
+}
+
+func (s *c19) inAnySet(c coinset.Coin) bool {
+	for _, dq := range s.deques {
+		for _, d := range dq {
+			if d == c {
+				return true
+			}
+		}
+	}
+	return false
 }
 
 func (s *c19) genCoin(r *kit.Rng) kit.Op {
@@ -243,43 +285,50 @@ func (s *c19) Apply(o kit.Op) *kit.Violation {
 			s.pool = append(s.pool, &hcoin{hash: h, index: uint32(o.Arg(3)), value: bchutil.Amount(o.Arg(0)), confs: o.Arg(1), id: id})
 		}
 	case "newset":
-		if s.set != nil {
+		if o.H < 0 || o.H > 1 || s.sets[o.H] != nil {
 			return nil
 		}
 		var init []coinset.Coin
-		if o.S != "" {
-			for _, p := range strings.Split(o.S, ",") {
-				if i, err := strconv.Atoi(p); err == nil && i >= 0 && i < len(s.pool) {
-					dup := false
-					for _, c := range init {
-						if c == s.pool[i] {
-							dup = true
-						}
-					}
-					if !dup {
-						init = append(init, s.pool[i])
-					}
-				}
+		if o.S != "nil" {
+			if s.shared == nil {
+				s.shared = append([]coinset.Coin(nil), s.pool...)
 			}
-		}
-		s.set = coinset.NewCoinSet(init)
-		s.deque = append([]coinset.Coin(nil), init...)
-	case "push":
-		if s.set == nil || o.H < 0 || o.H >= len(s.pool) {
-			return nil
-		}
-		for _, d := range s.deque {
-			if d == s.pool[o.H] {
+			var a, b int
+			if _, err := fmt.Sscanf(o.S, "%d:%d", &a, &b); err != nil || a < 0 || b < a || b > len(s.shared) {
 				return nil
 			}
+			// no coin in two sets at once
+			for _, c := range s.shared[a:b] {
+				if s.inAnySet(c) {
+					return nil
+				}
+			}
+			init = s.shared[a:b] // a sub-slice WITH spare capacity behind it
+			if o.H == 1 {
+				s.st.Probe("two-sets-over-one-caller-list")
+			}
+		}
+		s.sets[o.H] = coinset.NewCoinSet(init)
+		s.deques[o.H] = append([]coinset.Coin(nil), init...)
+		s.use(o.H)
+	case "push":
+		si := int(o.Arg(0))
+		if si < 0 || si > 1 || s.sets[si] == nil || o.H < 0 || o.H >= len(s.pool) {
+			return nil
+		}
+		s.use(si)
+		if s.inAnySet(s.pool[o.H]) {
+			return nil
 		}
 		s.set.PushCoin(s.pool[o.H])
 		s.deque = append(s.deque, s.pool[o.H])
+		s.store()
 		s.mutated = true
 	case "pop":
-		if s.set == nil {
+		if o.H < 0 || o.H > 1 || s.sets[o.H] == nil {
 			return nil
 		}
+		s.use(o.H)
 		got := s.set.PopCoin()
 		s.mutated = true
 		if len(s.deque) == 0 {
@@ -290,14 +339,16 @@ func (s *c19) Apply(o kit.Op) *kit.Violation {
 			return nil
 		}
 		want := s.deque[len(s.deque)-1]
-		s.deque = s.deque[:len(s.deque)-1]
+		s.deque = append([]coinset.Coin(nil), s.deque[:len(s.deque)-1]...)
+		s.store()
 		if got != want {
 			return kit.V("coinset:wrong-coin-removed", "PopCoin returned another coin than the last one")
 		}
 	case "shift":
-		if s.set == nil {
+		if o.H < 0 || o.H > 1 || s.sets[o.H] == nil {
 			return nil
 		}
+		s.use(o.H)
 		got := s.set.ShiftCoin()
 		s.mutated = true
 		if len(s.deque) == 0 {
@@ -309,13 +360,15 @@ func (s *c19) Apply(o kit.Op) *kit.Violation {
 		}
 		want := s.deque[0]
 		s.deque = append([]coinset.Coin(nil), s.deque[1:]...)
+		s.store()
 		if got != want {
 			return kit.V("coinset:wrong-coin-removed", "ShiftCoin returned another coin than the first one")
 		}
 	case "mktx":
-		if s.set == nil {
+		if o.H < 0 || o.H > 1 || s.sets[o.H] == nil {
 			return nil
 		}
+		s.use(o.H)
 		tx := coinset.NewMsgTxWithInputCoins(int32(o.Arg(0)), s.set)
 		if tx == nil || tx.Version != int32(o.Arg(0)) {
 			return kit.V("coinset:built-transaction-wrong", "built transaction missing or wrong version")
@@ -333,9 +386,10 @@ func (s *c19) Apply(o kit.Op) *kit.Violation {
 			return kit.V("coinset:built-transaction-wrong", "built transaction has outputs")
 		}
 	case "select":
-		if s.set == nil {
+		if o.H < 0 || o.H > 1 || s.sets[o.H] == nil {
 			return nil
 		}
+		s.use(o.H)
 		s.selected = true
 		return s.checkSelect(int(o.Arg(0)), o.Arg(1), int(o.Arg(2)), o.Arg(3), o.Arg(4))
 	}
@@ -547,25 +601,34 @@ func describeCoins(cs []coinset.Coin) string {
 }
 
 func (s *c19) Check() *kit.Violation {
-	if s.set == nil {
-		return nil
+	for i := range s.sets {
+		if s.sets[i] == nil {
+			continue
+		}
+		if v := checkSet(i, s.sets[i], s.deques[i]); v != nil {
+			return v
+		}
 	}
-	if s.set.Num() != len(s.deque) {
-		return kit.V("coinset:count-drifted", "Num() = %d, contents %d", s.set.Num(), len(s.deque))
+	return nil
+}
+
+func checkSet(i int, set *coinset.CoinSet, deque []coinset.Coin) *kit.Violation {
+	if set.Num() != len(deque) {
+		return kit.V("coinset:count-drifted", "set %d: Num() = %d, contents %d", i, set.Num(), len(deque))
 	}
-	if big.NewInt(int64(s.set.TotalValue())).Cmp(bigSum(s.deque, valOf)) != 0 {
-		return kit.V("coinset:total-value-drifted", "TotalValue() = %d, sum over contents %v", s.set.TotalValue(), bigSum(s.deque, valOf))
+	if big.NewInt(int64(set.TotalValue())).Cmp(bigSum(deque, valOf)) != 0 {
+		return kit.V("coinset:total-value-drifted", "set %d: TotalValue() = %d, sum over contents %v", i, set.TotalValue(), bigSum(deque, valOf))
 	}
-	if big.NewInt(s.set.TotalValueAge()).Cmp(bigSum(s.deque, vaOf)) != 0 {
-		return kit.V("coinset:total-value-age-drifted", "TotalValueAge() = %d, sum over contents %v", s.set.TotalValueAge(), bigSum(s.deque, vaOf))
+	if big.NewInt(set.TotalValueAge()).Cmp(bigSum(deque, vaOf)) != 0 {
+		return kit.V("coinset:total-value-age-drifted", "set %d: TotalValueAge() = %d, sum over contents %v", i, set.TotalValueAge(), bigSum(deque, vaOf))
 	}
-	cs := s.set.Coins()
-	if len(cs) != len(s.deque) {
-		return kit.V("coinset:contents-differ", "Coins() has %d entries, model %d", len(cs), len(s.deque))
+	cs := set.Coins()
+	if len(cs) != len(deque) {
+		return kit.V("coinset:contents-differ", "set %d: Coins() has %d entries, model %d", i, len(cs), len(deque))
 	}
-	for i := range cs {
-		if cs[i] != s.deque[i] {
-			return kit.V("coinset:contents-differ", "Coins()[%d] is not the model's coin %d", i, i)
+	for k := range cs {
+		if cs[k] != deque[k] {
+			return kit.V("coinset:contents-differ", "set %d: Coins()[%d] is not the model's coin %d (its contents changed although only pushes, pops and shifts recorded in the model touched it)", i, k, k)
 		}
 	}
 	return nil
